@@ -1,4 +1,4 @@
-import BPT.Py.Model
+import BPT.Py.Api
 import Driver.Util
 /- Pure-Python-map part of the driver.  Keys are integers, values are integers or `N` (None). -/
 namespace Driver
@@ -29,7 +29,7 @@ structure PSt where
   dead : Bool := false
 
 def posOf (ls : List (Leaf PK PV)) (id : Nat) : String :=
-  if id = nullId then "_" else
+  if id = Py.noneId then "_" else
   match ls.findIdx? (fun l => l.id == id) with
   | some i => toString i
   | none => "?"
@@ -49,16 +49,7 @@ def fmtResP {α : Type} (f : α → String) : Res α → String
   | .diverge => "diverge"
   | .ub => "ub"
 
-/-- `get(key, default)` -/
-def pGet (cfg : Py.Cfg) (s : PState PK PV) (k : PK) (d : PV) : Option PV :=
-  (findRec s.height s.root k).map fun r =>
-    match r with
-    | none => d
-    | some (_, v) => if cfg.getChecksPresence then v else (match v with | some x => some x | none => d)
-
-/-- `__getitem__`: `some none` = KeyError -/
-def pGetItem (s : PState PK PV) (k : PK) : Option (Option PV) :=
-  (findRec s.height s.root k).map fun r => r.map (·.2)
+def isNonePV (v : PV) : Bool := v.isNone
 
 def countNodes : (h : Nat) → Tree PK PV h → Nat
   | 0, _ => 1
@@ -99,21 +90,21 @@ def pyStep (p : PSt) (ws : List String) : PSt × String :=
      | none => (p, "bad-op"))
   | ["get", k, d], some s =>
     (match k.toInt?, parsePV d with
-     | some k, some d => (match pGet p.cfg s k d with
+     | some k, some d => (match Py.get p.cfg isNonePV s k d with
         | some v => (p, fmtPV v)
         | none => die "raise")
      | _, _ => (p, "bad-op"))
   | ["getitem", k], some s =>
     (match k.toInt? with
-     | some k => (match pGetItem s k with
+     | some k => (match Py.getitem s k with
         | some (some v) => (p, fmtPV v)
         | some none => (p, "keyerror")
         | none => die "raise")
      | none => (p, "bad-op"))
   | ["in", k], some s =>
     (match k.toInt? with
-     | some k => (match pGetItem s k with
-        | some r => (p, fmtBool r.isSome)
+     | some k => (match Py.contains s k with
+        | some r => (p, fmtBool r)
         | none => die "raise")
      | none => (p, "bad-op"))
   | ["len"], some s => (match len s with | .ok n => (p, toString n) | r => die (fmtResP toString r))
@@ -122,56 +113,34 @@ def pyStep (p : PSt) (ws : List String) : PSt × String :=
   | "pop" :: k :: rest, some s =>
     (match k.toInt?, (match rest with | [] => some none | [d] => (parsePV d).map some | _ => none) with
      | some k, some d =>
-       (match pGetItem s k with
+       (match Py.pop p.cfg s k d with
         | none => die "raise"
-        | some none => (match d with | some d => (p, fmtPV d) | none => (p, "keyerror"))
-        | some (some v) =>
-          match delitem p.cfg s k with
-          | some (s', true) => ({ p with st := some s' }, fmtPV v)
-          | some (s', false) => ({ p with st := some s' }, match d with | some d => fmtPV d | none => "keyerror")
-          | none => die "raise")
+        | some (s', some v) => ({ p with st := some s' }, fmtPV v)
+        | some (s', none) => ({ p with st := some s' }, "keyerror"))
      | _, _ => (p, "bad-op"))
   | ["popitem"], some s =>
-    (match len s with
-     | .ok 0 => (p, "keyerror")
-     | .ok _ =>
-       (match findLeafById (Tree.leaves s.height s.root) s.head with
-        | none => die "raise"
-        | some l =>
-          match l.keys, l.vals with
-          | [], _ => (p, "keyerror")
-          | k :: _, v :: _ =>
-            (match delitem p.cfg s k with
-             | some (s', true) => ({ p with st := some s' }, fmtPKV (k, v))
-             | some (s', false) => ({ p with st := some s' }, "keyerror")
-             | none => die "raise")
-          | _ :: _, [] => die "raise")
-     | r => die (fmtResP toString r))
+    (match Py.popitem p.cfg s with
+     | .ok (s', some kv) => ({ p with st := some s' }, fmtPKV kv)
+     | .ok (s', none) => ({ p with st := some s' }, "keyerror")
+     | r => die (fmtResP (fun _ => "") r))
   | ["setdefault", k, d], some s =>
     (match k.toInt?, parsePV d with
      | some k, some d =>
-       (match pGetItem s k with
+       (match Py.setdefault s k d with
         | none => die "raise"
-        | some (some v) => (p, fmtPV v)
-        | some none => (match setitem s k d with
-           | some s' => ({ p with st := some s' }, fmtPV d)
-           | none => die "raise"))
+        | some (s', v) => ({ p with st := some s' }, fmtPV v))
      | _, _ => (p, "bad-op"))
   | ["update", items], some s =>
     (match parsePairs items with
      | some items =>
-       (match items.foldl (fun acc kv => acc.bind fun s => setitem s kv.1 kv.2) (some s) with
+       (match Py.update s items with
         | some s' => ({ p with st := some s' }, "ok")
         | none => die "raise")
      | none => (p, "bad-op"))
   | ["copy"], some s =>
-    (match items s none none, (Py.new s.cap : Option (PState PK PV)) with
-     | .ok its, some s0 =>
-       (match its.foldl (fun acc kv => acc.bind fun s => setitem s kv.1 kv.2) (some s0) with
-        | some s' => ({ p with st := some s' }, "ok")
-        | none => die "raise")
-     | .ok _, none => die "raise"
-     | r, _ => die (fmtResP (fun _ => "") r))
+    (match Py.copy s with
+     | .ok s' => ({ p with st := some s' }, "ok")
+     | r => die (fmtResP (fun _ => "") r))
   | [op, a, b], some s =>
     if op == "items" ∨ op == "keys" ∨ op == "values" ∨ op == "range" then
       (match parsePOptKey a, parsePOptKey b with
